@@ -266,6 +266,13 @@ fn leaf_values() -> R {
     let q = crate::must_some!(at(&pb, &path), "leaf not found after decode");
     ensure!(q.d == want && q.kind == Kind::Leaf, "decoded leaf digest differs from SHA-256 of its dCBOR", "{}", g.name);
     ensure!(dg(&back) == dg(&e), "decoded envelope has another digest", "{}", g.name);
+    // the tolerated legacy spelling of the leaf marker (#6.24 for #6.201): if it is read at all, it is read as the same leaf
+    op("decode (#6.24 leaf marker)");
+    let mut legacy = vec![0xd8, 0xc8, 0xd8, 0x18]; legacy.extend_from_slice(&raw);
+    if let Ok(x) = Envelope::try_from_cbor_data(legacy) {
+        ensure!(kind(&x) == Kind::Leaf && dg(&x) == want, "leaf read through the #6.24 marker has another digest than SHA-256 of its dCBOR", "{}", g.name);
+        ensure!(bytes(&x) == enc, "leaf read through the #6.24 marker re-encodes to another leaf", "{}", g.name);
+    }
     Ok(())
 }
 
